@@ -29,6 +29,23 @@ import rsx  # noqa: E402
 REPO = os.environ.get('VERIF_REPO', '/repo')
 
 
+def count_closures(text):
+    """Number of closure expressions (`|x| ..`, `move |..| ..`, `|| ..`) in a function's source (comments/strings masked).
+    A `|..|` is a closure head when what precedes it cannot end an operand: `(`, `,`, `=`, `{`, `;`, `:`, `=>`, or `move` / `return`."""
+    masked, _ = rsx.mask(text)
+    n = 0
+    for m in re.finditer(r'\|([^|\n;{}]*)\|', masked):
+        inner = m.group(1)
+        if not re.fullmatch(r"[\w\s,:&<>'()\[\]_.*]*", inner):
+            continue
+        before = masked[:m.start()].rstrip()
+        if not before:
+            continue
+        if before[-1] in '(,={;:>' or re.search(r'\b(move|return)$', before):
+            n += 1
+    return n
+
+
 class SpecError(Exception):
     pass
 
@@ -529,6 +546,7 @@ class Gen:
             self.emit('}', {'kind': 'gen'})
         if record:
             self.functions.append({'fn': qual, 'file': rel, 'lines': [it.line_start, it.line_end], 'sha256': it.sha256,
+                                   'closures': count_closures(it.text),
                                    'loops': len(loops), 'props': props})
 
     def do_identcount(self, ident, toks):
